@@ -1,4 +1,5 @@
 import MaestroVerif.Model.Expand
+import MaestroVerif.Lemmas.ExpandWs
 
 /-!
 # C10 — Every step instance has its own workspace inside the study directory
@@ -113,5 +114,195 @@ theorem C10_counterexample_degenerate :
 /-! non-vacuity -/
 example : makeSafePath "/out/study".toList ["run".toList, "SIZE.10.ITER.5".toList] =
     "/out/study/run/SIZE.10.ITER.5".toList := by decide
+
+end MaestroVerif.C10
+
+namespace MaestroVerif.C10
+open MaestroVerif.Expand MaestroVerif.Subst MaestroVerif.Gen
+
+/-- a path component `make_safe_path` keeps as it is and that names a directory of its own:
+non-empty, not `.` or `..`, made of alphabet characters that are not rewritten -/
+def Clean (a : Str) : Prop :=
+  a ≠ [] ∧ a ≠ ['.'] ∧ a ≠ ['.', '.'] ∧ ∀ c ∈ a, c ∈ safeAlphabet ∧ rewriteChar c = c
+
+theorem Clean.sanitize {a : Str} (h : Clean a) : sanitize a = a := sanitize_id a h.2.2.2
+
+theorem Clean.noSlash {a : Str} (h : Clean a) : ∀ c ∈ a, c ≠ '/' := by
+  intro c hc
+  have := C10_component_safe a c (by rw [h.sanitize]; exact hc)
+  exact this.1
+
+theorem flat_path (root a : Str) (hr : root ≠ []) (hrl : root.getLast? ≠ some '/') (ha : Clean a) :
+    makeSafePath root [a] = root ++ '/' :: a := by
+  have := (C10_inside_root_partial root a [] hr hrl (by rw [ha.sanitize]; exact ha.1)).2.1
+  rw [this, ha.sanitize]; simp
+
+theorem row_path (root a b : Str) (hr : root ≠ []) (hrl : root.getLast? ≠ some '/') (ha : Clean a)
+    (hb : Clean b) : makeSafePath root [a, b] = root ++ '/' :: (a ++ '/' :: b) := by
+  have := (C10_inside_root_partial root a b hr hrl (by rw [ha.sanitize]; exact ha.1)).1
+  rw [this, ha.sanitize, hb.sanitize]; simp
+
+/-- **Graph level: the shape of every workspace.**  Whatever the specification and the iteration
+order, every instance of the finished graph has the workspace `make_safe_path(root, step)` (and the
+step's name) or `make_safe_path(root, step, combination string - or its hash)` (and the name
+`step_<combination string>`) of a step of the specification. -/
+theorem C10_graph_workspace_shape (spec : Spec) (ord : List Str → List Str) (r : XG)
+    (h : stage spec ord = .ok r) : ∀ i, i ∈ r.insts → WsShape spec (· ∈ spec.steps) i :=
+  stage_ws spec ord r h
+
+/-- the hypotheses under which the code does keep workspaces apart (the complement is the known
+findings D10-D12): the study directory is a non-empty path without a trailing `/`, workspaces are
+not hashed, step names and combination strings are `Clean` -/
+structure CleanSpec (spec : Spec) : Prop where
+  root_ne : spec.root ≠ []
+  root_end : spec.root.getLast? ≠ some '/'
+  plain : spec.hashWs = false
+  steps : ∀ st, st ∈ spec.steps → Clean st.name
+  labels : ∀ (k : Str) (r : Nat), k ∈ spec.params.map (·.key) → r < nRows spec.params →
+    Clean (lookup (combo spec.params r).labels k)
+
+theorem dot_clean : '.' ∈ safeAlphabet ∧ rewriteChar '.' = '.' := by decide
+
+theorem clean_join : ∀ (l : List Str), l ≠ [] → (∀ x, x ∈ l → Clean x) → Clean (joinWith ['.'] l)
+  | [], h, _ => absurd rfl h
+  | [x], _, hx => by simpa [joinWith] using hx x (by simp)
+  | x :: y :: rest, _, hx => by
+    have ih := clean_join (y :: rest) (by simp) (fun z hz => hx z (by simp [hz]))
+    have cx := hx x (by simp)
+    simp only [joinWith]
+    obtain ⟨a, as, ea⟩ := List.exists_cons_of_ne_nil cx.1
+    obtain ⟨b, bs, eb⟩ := List.exists_cons_of_ne_nil ih.1
+    refine ⟨by simp [ea], ?_, ?_, ?_⟩
+    · rw [ea, eb]; intro e; have := congrArg List.length e; simp at this
+    · rw [ea, eb]; intro e; have := congrArg List.length e; simp at this; omega
+    · intro c hc
+      simp only [List.append_assoc, List.mem_append, List.mem_singleton] at hc
+      rcases hc with hc | hc | hc
+      · exact cx.2.2.2 c hc
+      · subst hc; exact dot_clean
+      · exact ih.2.2.2 c hc
+
+/-- the combination string of a non-empty set of parameter keys is `Clean` when every label is -/
+theorem CleanSpec.combo {spec : Spec} (hc : CleanSpec spec) (used : List Str) (r : Nat)
+    (hu : used.isEmpty = false) (hsub : ∀ k, k ∈ used → k ∈ spec.params.map (·.key))
+    (hr : r < nRows spec.params) : Clean ((combo spec.params r).paramString used) := by
+  unfold Combo.paramString
+  apply clean_join
+  · have := MaestroVerif.C08.sortDedup_isEmpty used
+    rw [hu] at this
+    intro e
+    rw [List.map_eq_nil_iff] at e
+    rw [e] at this
+    simp at this
+  · intro x hx
+    obtain ⟨k, hk, rfl⟩ := List.mem_map.mp hx
+    exact hc.labels k r (hsub k (mem_sortDedup.mp hk)) hr
+
+/-- **Graph level: every instance has its own workspace (partial: `CleanSpec`).**  Two instances of
+the finished graph with the same workspace are the same instance. -/
+theorem C10_graph_workspaces_distinct_partial (spec : Spec) (ord : List Str → List Str) (r : XG)
+    (h : stage spec ord = .ok r) (hc : CleanSpec spec) :
+    ∀ i j, i ∈ r.insts → j ∈ r.insts → i.ws = j.ws → i.name = j.name := by
+  intro i j hi hj hw
+  have si := stage_ws spec ord r h i hi
+  have sj := stage_ws spec ord r h j hj
+  have hp := hc.plain
+  cases si with
+  | flat st hk hn hwi =>
+    cases sj with
+    | flat st' hk' hn' hwj =>
+      rw [hwi, hwj, flat_path _ _ hc.root_ne hc.root_end (hc.steps _ hk),
+        flat_path _ _ hc.root_ne hc.root_end (hc.steps _ hk')] at hw
+      have := List.append_cancel_left hw
+      simp only [List.cons.injEq, true_and] at this
+      rw [hn, hn', this]
+    | row st' hk' used r' hu hsub hr hn' hwj =>
+      exfalso
+      simp only [hp, Bool.false_eq_true, ↓reduceIte] at hwj
+      rw [hwi, hwj, flat_path _ _ hc.root_ne hc.root_end (hc.steps _ hk),
+        row_path _ _ _ hc.root_ne hc.root_end (hc.steps _ hk') (hc.combo used r' hu hsub hr)] at hw
+      have := List.append_cancel_left hw
+      simp only [List.cons.injEq, true_and] at this
+      exact (hc.steps _ hk).noSlash '/' (by rw [this]; simp) rfl
+  | row st hk used r0 hu hsub0 hr0 hn hwi =>
+    simp only [hp, Bool.false_eq_true, ↓reduceIte] at hwi
+    cases sj with
+    | flat st' hk' hn' hwj =>
+      exfalso
+      rw [hwi, hwj, flat_path _ _ hc.root_ne hc.root_end (hc.steps _ hk'),
+        row_path _ _ _ hc.root_ne hc.root_end (hc.steps _ hk) (hc.combo used r0 hu hsub0 hr0)] at hw
+      have := List.append_cancel_left hw
+      simp only [List.cons.injEq, true_and] at this
+      exact (hc.steps _ hk').noSlash '/' (by rw [← this]; simp) rfl
+    | row st' hk' used' r' hu' hsub' hr' hn' hwj =>
+      simp only [hp, Bool.false_eq_true, ↓reduceIte] at hwj
+      rw [hwi, hwj, row_path _ _ _ hc.root_ne hc.root_end (hc.steps _ hk) (hc.combo used r0 hu hsub0 hr0),
+        row_path _ _ _ hc.root_ne hc.root_end (hc.steps _ hk') (hc.combo used' r' hu' hsub' hr')] at hw
+      have := List.append_cancel_left hw
+      simp only [List.cons.injEq, true_and] at this
+      obtain ⟨e1, e2⟩ := slash_split _ _ _ _ (hc.steps _ hk).noSlash (hc.steps _ hk').noSlash this
+      rw [hn, hn', e1, e2]
+
+/-- … and since there is exactly one instance per name (`C08_exactly_one_instance_per_name`), the
+two are the same entry of the graph -/
+theorem C10_graph_one_workspace_one_instance_partial (spec : Spec) (ord : List Str → List Str) (r : XG)
+    (h : stage spec ord = .ok r) (hc : CleanSpec spec) :
+    ∀ a b (ha : a < r.insts.length) (hb : b < r.insts.length),
+      (r.insts[a]).ws = (r.insts[b]).ws → a = b := by
+  intro a b ha hb hw
+  have hn := C10_graph_workspaces_distinct_partial spec ord r h hc _ _
+    (List.getElem_mem ha) (List.getElem_mem hb) hw
+  have hu : (r.insts.map (·.name)).Nodup :=
+    (stage_uniqueNames spec ord r h).1
+  have hp := List.pairwise_iff_getElem.mp hu
+  rcases Nat.lt_trichotomy a b with l | e | l
+  · exact absurd (by rw [List.getElem_map, List.getElem_map]; exact hn) (hp a b (by simpa using ha) (by simpa using hb) l)
+  · exact e
+  · exact absurd (by rw [List.getElem_map, List.getElem_map]; exact hn.symm) (hp b a (by simpa using hb) (by simpa using ha) l)
+
+/-- **Graph level: every workspace is strictly inside the study directory (partial: `CleanSpec`)**:
+`root/<step>` or `root/<step>/<combination>` with `<step>` and `<combination>` non-empty, free of
+`/`, and neither `.` nor `..`. -/
+theorem C10_graph_inside_root_partial (spec : Spec) (ord : List Str → List Str) (r : XG)
+    (h : stage spec ord = .ok r) (hc : CleanSpec spec) :
+    ∀ i, i ∈ r.insts → ∃ a, Clean a ∧ (i.ws = spec.root ++ '/' :: a ∨
+      ∃ b, Clean b ∧ i.ws = spec.root ++ '/' :: (a ++ '/' :: b)) := by
+  intro i hi
+  have hp := hc.plain
+  cases stage_ws spec ord r h i hi with
+  | flat st hk hn hw =>
+    exact ⟨st.name, hc.steps _ hk, Or.inl (by rw [hw, flat_path _ _ hc.root_ne hc.root_end (hc.steps _ hk)])⟩
+  | row st hk used r0 hu hsub0 hr0 hn hw =>
+    simp only [hp, Bool.false_eq_true, ↓reduceIte] at hw
+    exact ⟨st.name, hc.steps _ hk, Or.inr ⟨_, hc.combo used r0 hu hsub0 hr0,
+      by rw [hw, row_path _ _ _ hc.root_ne hc.root_end (hc.steps _ hk) (hc.combo used r0 hu hsub0 hr0)]⟩⟩
+
+end MaestroVerif.C10
+
+namespace MaestroVerif.C10
+open MaestroVerif.Expand MaestroVerif.Subst MaestroVerif.Gen
+
+instance (a : Str) : Decidable (Clean a) := by unfold Clean; infer_instance
+
+/-! non-vacuity: the demonstration study of C08 (one unparameterised step, one step expanded over two
+combinations, one funnel step) meets `CleanSpec`, is staged, and its four workspaces are the four
+directories one expects -/
+theorem demo_cleanSpec : CleanSpec MaestroVerif.C08.demoSpec where
+  root_ne := by decide
+  root_end := by decide
+  plain := rfl
+  steps := by decide
+  labels := by
+    intro k r hk hr
+    have hk' : k = "SIZE".toList := by simpa [MaestroVerif.C08.demoSpec] using hk
+    have hr' : r < 2 := hr
+    subst hk'
+    have : r = 0 ∨ r = 1 := by omega
+    rcases this with e | e <;> subst e <;> decide
+
+example : (match stage MaestroVerif.C08.demoSpec id with
+    | .ok r => r.insts.map (·.ws) == ["/out/pre".toList, "/out/run/SIZE.10".toList,
+        "/out/run/SIZE.20".toList, "/out/post".toList]
+    | .error _ => false) = true := by decide +kernel
 
 end MaestroVerif.C10
